@@ -194,10 +194,10 @@ func actions(fs ...func(m *PktModel, w *world.World, g Ghost) []UserAction) func
 }
 
 // CheckC09: gap-free sequences, one binding commitment, all-or-nothing sends.
-func CheckC09(tier string) int {
+func modelsC09(tier string) ([]*PktModel, []int) {
 	props := map[string]bool{"C09": true}
 	maxTx := 3
-	depth := 7
+	depth := 6
 	if tier == "thorough" {
 		maxTx, depth = 4, 10
 	}
@@ -228,8 +228,18 @@ func CheckC09(tier string) int {
 		StepCheck:  Steps(CoreStepCheck, NftStep, SendStepCheck),
 		StateCheck: SendInvariant,
 	}
-	return RunPkt("C09", tier, []*PktModel{m}, []int{depth}, tierBudget(tier, 100*time.Second, 15*time.Minute), append([]string{
+	return []*PktModel{m}, []int{depth}
+}
+
+func CheckC09(tier string) int {
+	models, depth := modelsC09(tier)
+
+	return RunPkt("C09", tier, models, depth, tierBudget(tier, 100*time.Second, 15*time.Minute), append([]string{
 		"sends from two applications (mock port through the packet keeper on a branch written only on success, as a Msg handler would; NFT transfers as real transactions) to two destinations, interleaved with inbound receives and acknowledgements",
 		"failing sends: unknown destination, unknown relay chain, destination = self, sequence ahead / reused, empty data, foreign source, token not owned, class missing, token missing; each must fail and leave the tibc, NFT, MT, nft and mt stores byte-identical",
 	}, commonAssumptions...))
+}
+
+func init() {
+	PktRegistry["C09"] = func(tier string) []*PktModel { m, _ := modelsC09(tier); return m }
 }
